@@ -642,6 +642,15 @@ class UpdateCollection(Message):
             # MP_REACH_NLRI contains nexthop - use iter_routed() for RoutedNLRI
             announces.extend(reach.iter_routed())
 
+        # RFC 7606 2: treat-as-withdraw - "the UPDATE message containing the path attribute in
+        # question MUST be treated as though all contained routes had been withdrawn".  The
+        # attribute parser records that decision as a pseudo attribute; it has to be applied
+        # here, otherwise the routes are reported as announced with the malformed attribute
+        # missing.
+        if Attribute.CODE.INTERNAL_TREAT_AS_WITHDRAW in attributes:
+            withdraws.extend(routed.nlri for routed in announces)
+            announces = []
+
         return cls(announces, withdraws, attributes)
 
     # EOR prefix for non-IPv4-unicast families
